@@ -1669,29 +1669,35 @@ std::ostream& expression_t::print(std::ostream& os, bool old) const
         get(1).print(os, old);
         break;
 
+    // MITL formulas are printed in the syntax the property grammar reads: Pr <formula> with
+    // (l U[a,b] r), (l R[a,b] r), (X f) and && / || between sub-formulas
     case MITL_FORMULA:
-        os << "MITL: ";
+        os << "Pr ";
         get(0).print(os, old);
         break;
     case MITL_RELEASE:
     case MITL_UNTIL:
-        get(0).print(os, old) << "U[";
-        get(1).print(os, old) << ";";
-        get(2).print(os, old) << "]";
-        get(3).print(os, old);
+        get(0).print(os << '(', old) << (data->kind == MITL_UNTIL ? " U[" : " R[");
+        get(1).print(os, old) << ",";
+        get(2).print(os, old) << "] ";
+        get(3).print(os, old) << ')';
         break;
 
     case MITL_DISJ:
-        get(0).print(os, old) << "\\/";
-        get(1).print(os, old);
-        break;
     case MITL_CONJ:
-        get(0).print(os, old) << "/\\";
-        get(1).print(os, old);
+        for (uint32_t i = 0; i < 2; ++i) {
+            const auto k = get(i).get_kind();
+            if (k == MITL_ATOM || k == MITL_CONJ || k == MITL_DISJ)
+                get(i).print(os << '(', old) << ')';
+            else
+                get(i).print(os, old);
+            if (i == 0)
+                os << (data->kind == MITL_CONJ ? " && " : " || ");
+        }
         break;
     case MITL_ATOM: get(0).print(os, old); break;
     case MITL_NEXT:
-        os << "X(";
+        os << "(X ";
         get(0).print(os, old) << ")";
         break;
     case SPAWN: os << "SPAWN"; break;
